@@ -8,6 +8,9 @@ from __future__ import annotations
 import argparse, hashlib, importlib, json, multiprocessing, os, subprocess, sys, time, traceback
 
 ROOT = os.path.dirname(os.path.dirname(os.path.abspath(__file__)))
+# Checks whose thorough bounds cost well under a minute on 16 cores: their quick tier simply
+# runs the thorough bounds (thorough wall <= 30 s measured while the machine was busy with other work).
+QUICK_RUNS_THOROUGH_BOUNDS = {"C24", "C25", "C28", "C34", "C41", "C45", "C47", "C48"}
 REPO_SRC = "/repo/src"
 
 
@@ -219,7 +222,8 @@ def main(argv=None):
         return do_replay(mod, pid, a.replay)
 
     t0 = time.time()
-    shards = list(mod.shards(a.tier, seed))
+    eff_tier = "thorough" if (a.tier == "quick" and pid in QUICK_RUNS_THOROUGH_BOUNDS) else a.tier
+    shards = list(mod.shards(eff_tier, seed))
     if a.shard is not None:
         shards = [shards[int(a.shard)]]
     # the seed only rotates the order in which shards are handed out
@@ -227,7 +231,7 @@ def main(argv=None):
         r = seed % len(shards)
         shards = shards[r:] + shards[:r]
     total = Stats()
-    work = [(modname, s, a.tier, seed) for s in shards]
+    work = [(modname, s, eff_tier, seed) for s in shards]
     if a.jobs <= 1 or len(work) <= 1:
         for w in work:
             total.merge(_work(w))
@@ -288,7 +292,7 @@ def main(argv=None):
         "outcomes": sorted(total.outcomes)[:40],
         "counters": {k: (round(v, 3) if isinstance(v, float) else v) for k, v in sorted(total.counters.items())},
         "shards": len(shards),
-        "bounds": getattr(mod, "BOUNDS", {}).get(a.tier, ""),
+        "bounds": getattr(mod, "BOUNDS", {}).get(eff_tier, "") + (" (the quick tier of this check runs its thorough bounds)" if eff_tier != a.tier else ""),
     }
     if level == "model_checking":
         cov["states"] = total.states
@@ -320,7 +324,7 @@ def main(argv=None):
         print("HARNESS ERROR: %d shard(s) failed inside the harness" % total.counters["harness_errors"])
         exit_code = exit_code or 3
     # vacuity guards
-    mins = getattr(mod, "MIN", {}).get(a.tier, {})
+    mins = getattr(mod, "MIN", {}).get(eff_tier, {})
     for key, need in mins.items():
         have = {"evaluations": cov["evaluations"], "nontrivial": len(total.nontrivial),
                 "outcomes": len(total.outcomes), "states": total.states,
